@@ -92,6 +92,7 @@ import Sds.Proofs.Glue2
 import Sds.Proofs.Codec2
 import Sds.Proofs.LoadWF
 import Sds.Proofs.SerShapes
+import Sds.Proofs.GenEqLoad
 
 namespace Sds.C06
 open Sds Outcome
@@ -754,5 +755,45 @@ theorem model_codecs_follow_the_extracted_order (s : Sparse) (c : WMCore) :
     sparseC.ser s = usizeC.ser s.len ++ (bitVectorC.ser s.high ++ intVecC.ser s.low) ∧
     wmCoreC.ser c = usizeC.ser c.width ++ c.levels.toList.flatMap bitVectorC.ser :=
   ⟨rfl, rfl⟩
+
+/-! **The `load` functions as translated from the source on this run** (`Generated/FnsLoad.lean`): `RawVector`, `IntVector`,
+`RankSupport`, `SelectSupport`, `BitVector`, `SparseVector` and `WaveletMatrix` — statement by statement with the reader
+threaded through: the order of the `T::load(reader)?` calls, every sanity check (`bits_to_words(len) != data.len()`,
+`len * width != data.len()`, the three block-count checks of the bitvector, the two of the sparse vector, …), the error
+kind of each, the `enable_select` / `enable_select_zero` after a sparse load.  On every stream on which the arithmetic
+the loaders perform on header words does not leave `usize` — the predicates `RawOk`, `IntOk`, `SelOk`, `BvOk`,
+`SparseOk`, `WmOk` of `Proofs/GenEqLoad.lean`, which mirror the loaders; true of every stream whose words are below 2^32
+and, for the bitvector, of every stream shorter than 2^57 words — the code as it is NOW is the `load` of the model codec
+that the round-trip, size and prefix theorems above and in C14 are about.  Outside these predicates the real loaders
+panic (checked build) or accept after wrap-around (release build) where the `Nat` model rejects:
+`GenEq.raw_load_ne_overflow` (`[2^64-1, 0]`), `GenEq.int_load_ne_overflow` (`[2^32, 2^32, 0, 0]`), … — observation O11 in
+DESIGN.md; no stream the library writes or the document describes is of that kind. -/
+theorem loaders_as_translated_from_source (m : Mode) (es : Elems) :
+    (GenEq.RawOk es → Generated.gen_RawVector_load m es = rawVecC.load es) ∧
+    (GenEq.IntOk es → Generated.gen_IntVector_load m es = intVecC.load es) ∧
+    Generated.gen_RankSupport_load m es = rankSupC.load es ∧
+    (GenEq.SelOk es → Generated.gen_SelectSupport_load m es = selSupC.load es) ∧
+    (GenEq.BvOk es → Generated.gen_BitVector_load m es = bitVectorC.load es) ∧
+    (GenEq.SparseOk es → Generated.gen_SparseVector_load m es = sparseC.load es) ∧
+    (GenEq.WmOk es → Generated.gen_WaveletMatrix_load m es = wmC.load es) :=
+  ⟨GenEq.raw_load_eq m es, GenEq.int_load_eq m es, GenEq.rank_load_eq m es, GenEq.sel_load_eq m es,
+   GenEq.bv_load_eq m es, GenEq.sparse_load_eq m es, GenEq.wm_load_eq m es⟩
+
+/-- … in particular on every stream of words below 2^32 (no further condition except, for the sparse vector, a low
+width of at most 64 in what is read) -/
+theorem loaders_on_small_streams (m : Mode) (es : Elems) (h : ∀ w ∈ es, w.toNat < 2 ^ 32) :
+    Generated.gen_RawVector_load m es = rawVecC.load es ∧
+    Generated.gen_IntVector_load m es = intVecC.load es ∧
+    Generated.gen_SelectSupport_load m es = selSupC.load es ∧
+    Generated.gen_BitVector_load m es = bitVectorC.load es ∧
+    (GenEq.SparseWidthOk es → Generated.gen_SparseVector_load m es = sparseC.load es) ∧
+    Generated.gen_WaveletMatrix_load m es = wmC.load es :=
+  ⟨GenEq.raw_load_eq_small m es h, GenEq.int_load_eq_small m es h, GenEq.sel_load_eq_small m es h,
+   GenEq.bv_load_eq_small m es h, fun hw => GenEq.sparse_load_eq_small m es h hw, GenEq.wm_load_eq_small m es h⟩
+
+/-- the translated `IntVector::load` on what the library writes for `[5, 8191, 77]` at width 13, followed by a marker
+word: the vector and the rest of the stream -/
+example : Generated.gen_IntVector_load .checked (intVecC.ser (IntVec.ofList 13 [5, 8191, 77]) ++ [99])
+    = ok (IntVec.ofList 13 [5, 8191, 77], [99]) := by decide +kernel
 
 end Sds.C06
